@@ -12,4 +12,20 @@ CLAIMS = {
                    'failure edge of a fallible call reaches a success return in build.cc / ninja.cc.',
         'not_decided': 'which commands may legitimately start after a failure under a given schedule.',
     },
+    'C06': {
+        'design': '5.6',
+        'technique': 'acquire/release pairing on all CFG paths + admission typestate + who-may-write + effect closure + compile-fail witnesses',
+        'decides': 'pool usage counter has exactly the inverse writers EdgeScheduled/EdgeFinished and every '
+                   'ready-queue push is paired with EdgeScheduled and bounded by the pool depth; the pool and '
+                   'the jobserver slot are released independently of the command result; every admission of a '
+                   'plan entry is preceded by a test excluding kWantToFinish and accompanied by the flip to '
+                   'kWantToFinish (at most once); who writes which Plan::Want value; a slot acquired by '
+                   'FindWork is on every path of Builder::Build released or handed to the runner, a completed '
+                   'command always reaches a function that releases on all of its paths, Abort releases all '
+                   'active edges; process-exit sites reachable while slots are held are enumerated against a '
+                   'reasoned table; Jobserver::Slot cannot be copied or forged (compile-fail witnesses); the '
+                   'console pool is the depth-1 pool.',
+        'not_decided': 'the numeric -j / load-average capacity formula (CanRunMore), "never idles" and '
+                       '"always terminates" (liveness).',
+    },
 }
